@@ -31,6 +31,8 @@ Definition ho_receipts_sender_delete_calls : nat := 2.
 Definition ho_receipts_handler_delete_calls : nat := 1.
 Definition ho_receipts_handler_plain_sends : nat := 1.
 Definition ho_receipts_yields : list bytes := [hex "72656365697074732e6e6f746966792e6265666f7265"; hex "72656365697074732e6e6f746966792e6166746572"; hex "72656365697074732e72656769737465726564"; hex "72656365697074732e73656e64657272"; hex "72656365697074732e776169742e6265666f7265"; hex "72656365697074732e637478646f6e65"]. (* receipts.notify.before receipts.notify.after receipts.registered receipts.senderr receipts.wait.before receipts.ctxdone *)
+Definition ho_stanza_message_types : list bytes := [hex "63686174"; hex "6572726f72"; hex "67726f757063686174"; hex "686561646c696e65"; hex "6e6f726d616c"]. (* chat error groupchat headline normal *)
+Definition ho_receipts_received_types : list bytes := [hex "63686174"; hex "6572726f72"; hex "67726f757063686174"; hex "686561646c696e65"; hex "6e6f726d616c"]. (* chat error groupchat headline normal *)
 Definition ho_muc_join_capacity : nat := 1.
 Definition ho_muc_depart_capacity : nat := 1.
 Definition ho_muc_depart_send_nonblocking : bool := true.
@@ -51,8 +53,8 @@ Definition ho_ibb_serve_close_blocking_write_locks : nat := 0.
 Definition ho_ibb_serve_close_try_write_locks : nat := 1.
 Definition ho_ibb_serve_close_sets_abort : bool := true.
 Definition ho_ibb_serve_close_returns_error : bool := false.
-Definition ho_ibb_expect_cleanup_deletes : nat := 1.
-Definition ho_ibb_expect_cleanup_checks_owner : bool := true.
+Definition ho_ibb_expect_cleanup_deletes : nat := 0.
+Definition ho_ibb_expect_cleanup_checks_owner : bool := false.
 Definition ho_ibb_open_offer_gives_up_on_done : bool := true.
 Definition ho_ibb_responses_obtained : nat := 1.
 Definition ho_ibb_responses_closed_on_all_paths : nat := 1.
